@@ -2,6 +2,7 @@
 //! complete product of its (small) attribute / shape / dtype / fill axes.
 
 pub mod gen_elem;
+pub mod gen_extra;
 pub mod gen_index;
 pub mod gen_nn;
 pub mod gen_reduce;
@@ -25,6 +26,7 @@ pub fn entries() -> Vec<Entry> {
     gen_reduce::register(&mut v);
     gen_index::register(&mut v);
     gen_nn::register(&mut v);
+    gen_extra::register(&mut v);
     v
 }
 
@@ -99,16 +101,14 @@ pub fn bcast_class(a: &[usize], b: &[usize]) -> &'static str {
     let (na, nb) = (numel(a), numel(b));
     if a == b {
         "same shape"
-    } else if nb == 1 && na != 1 {
-        if b.len() > a.len() { "second operand has one element and higher rank than the first" } else { "second operand has one element" }
-    } else if na == 1 && nb != 1 {
-        if a.len() > b.len() { "first operand has one element and higher rank than the second" } else { "first operand has one element" }
-    } else if na == 1 && nb == 1 {
-        if b.len() > a.len() {
-            "both operands have one element, second of higher rank"
-        } else {
-            "both operands have one element, first of higher rank"
-        }
+    } else if nb == 1 && b.len() > a.len() {
+        "second operand has one element and higher rank than the first"
+    } else if na == 1 && a.len() > b.len() {
+        "first operand has one element and higher rank than the second"
+    } else if nb == 1 {
+        "second operand has one element"
+    } else if na == 1 {
+        "first operand has one element"
     } else if a == out.as_slice() {
         "second operand broadcast"
     } else if b == out.as_slice() {
